@@ -13,28 +13,32 @@ import vlib
 PRED_PROP = {"C05.": "C05", "C04.": "C04", "C07.": "C07", "C18.": "C18"}
 
 
-def pol_cfg(n, weights, maxima, adj, freqs, reorder, invs):
+def pol_cfg(n, weights, maxima, adj, freqs, reorder, invs, signed=True):
     return ("SPECIFICATION Spec\nCONSTANTS\n N = %d\n Keys = {1, 2}\n Weights = {%s}\n Maxima = {%s}\n Adjust <- %s\n Freqs = {%s}\n"
-            " Reorder = %s\n KeepObs = FALSE\nINVARIANTS %s\n" %
+            " Reorder = %s\n Signed = %s\n KeepObs = FALSE\nINVARIANTS %s\n" %
             (n, ", ".join(map(str, weights)), ", ".join(map(str, maxima)), adj, ", ".join(map(str, freqs)),
-             "TRUE" if reorder else "FALSE", invs))
+             "TRUE" if reorder else "FALSE", "TRUE" if signed else "FALSE", invs))
 
 
 ALL_INV = "WellFormed Agree MaximaOK Bound Justified CurAlive"
-# with tasks applied out of order the unsigned totals wrap and a spurious sweep may start: C07 speaks of sequential use only
-RO_INV = "WellFormed Agree MaximaOK Bound CurAlive"
+# with tasks applied out of order a running total may go below zero.  Compared as an unsigned number (policy.go before fix F25) it starts a
+# spurious eviction sweep - a cache far below its maximum evicts what it holds with cause Overflow; `Signed = TRUE` (the repaired code,
+# Caffeine's signed totals) satisfies Justified under reordering as well.  The instance with Signed = FALSE must violate it.
+RO_INV = ALL_INV
+NEG = [("neg_unsigned_totals", "Justified")]
 
 
 def instances(quick, prop="C05"):
     """quick: the exhaustive instances are run by the check of C05 only (the other properties share the model; their quick
     tier replays the real policy on it); thorough: every property runs all of them."""
     q1 = [("n3", pol_cfg(3, [0, 1, 2], [2, 3], "Adj1", [0, 7], False, ALL_INV)),
-          ("n3ro02", pol_cfg(3, [0, 2], [2, 3], "Adj0", [0, 7], True, RO_INV))]
+          ("n3ro12", pol_cfg(3, [1, 2], [3], "Adj0", [0, 7], True, RO_INV)),
+          ("neg_unsigned_totals", pol_cfg(3, [1, 2], [3], "Adj0", [0, 7], True, ALL_INV, signed=False))]
     if quick:
         return q1 if prop == "C05" else []
     # measured on this machine (16 cores, other jobs running): n3ro 2.0 M states / 2.5 min, n3big 1.6 M / 1 min, n3ro3 0.9 M / 1 min,
     # n3w 9.2 M / 11 min - the largest one is run by the check of C05 only
-    mid = q1 + [("n3big", pol_cfg(3, [0, 1, 3], [5, 8], "Adj2", [0, 7], False, ALL_INV)),
+    mid = q1 + [("n3ro02", pol_cfg(3, [0, 2], [2, 3], "Adj0", [0, 7], True, RO_INV)), ("n3big", pol_cfg(3, [0, 1, 3], [5, 8], "Adj2", [0, 7], False, ALL_INV)),
                 ("n3ro3", pol_cfg(3, [0, 1, 2], [3], "Adj0", [0, 7], True, RO_INV))]
     if prop != "C05":
         return mid
@@ -109,7 +113,13 @@ def run(prop, tier, replay=None, collect_only=False):
             cov["mc"].append({"instance": "Policy " + r["tag"], "distinct": r["distinct"], "generated": r["generated"], "wall_s": round(r["wall"], 1)})
             cov["states"] += r["distinct"]
             cov["transitions"] += r["generated"]
-            if not vlib.tlc_ok(r):
+            must = dict(NEG).get(r["tag"])
+            if must:
+                hit = ("Invariant %s is violated" % must) in r["out"]
+                cov.setdefault("switches_that_must_violate", []).append({"instance": r["tag"], "invariant": must, "violated": hit})
+                if not hit:
+                    broken.append("Policy %s: %s is not violated although the totals are compared as unsigned numbers (vacuous invariant?)" % (r["tag"], must))
+            elif not vlib.tlc_ok(r):
                 broken.append("Policy model check %s: %s" % (r["tag"], r["out"][-1500:]))
         ex.shutdown()
     if cov["events"] and cov["drift"] * 2 > cov["events"]:
